@@ -18,7 +18,17 @@ q = sp.Symbol("q")
 def swap_handler(taken):
     def h(ex, st):
         t = ast.unparse(st.test)
-        if "angmom" in t and "<" in t or ">" in t and "angmom" in t:
+        is_swap = "angmom" in t and "<" in t or ">" in t and "angmom" in t
+        if not is_swap and isinstance(st.test, ast.Compare):
+            # the same decision written on values that hold the two angular momenta (tuples of shell data, temporaries)
+            try:
+                tv = ex.expr(st.test)
+            except AnalysisError:
+                tv = None
+            if isinstance(tv, SV) and not tv.labels and tv.e.has(sp.Function("Indicator")) and \
+                    {"l1", "l2"} <= {str(x) for x in tv.e.free_symbols} <= {"l1", "l2", "Lt", "Gt", "LtE", "GtE"}:
+                is_swap = True
+        if is_swap:
             if taken:
                 for s in st.body:
                     ex.stmt(s)
